@@ -870,7 +870,8 @@ def set_transit_compartments(model: Model, n: int, keep_depot: bool = True):
             innode, inflow = inflows[0]
             cb.add_flow(innode, central, inflow)
         else:
-            cb.set_dose(central, depot.doses[0])
+            new_central = cb.set_dose(central, depot.doses[0])
+            cb.set_bioavailability(new_central, depot.bioavailability)
         if statements.find_assignment('MAT'):
             model = _rename_parameter(model, 'MAT', 'MDT')
             statements = model.statements
@@ -960,8 +961,9 @@ def set_transit_compartments(model: Model, n: int, keep_depot: bool = True):
             nremove -= 1
 
         if n == 0:
-            dose = cs.dosing_compartments[0].doses[0]
-            cb.set_dose(destination, dose)
+            dosing_comp = cs.dosing_compartments[0]
+            destination = cb.set_dose(destination, dosing_comp.doses[0])
+            cb.set_bioavailability(destination, dosing_comp.bioavailability)
 
         statements = (
             model.statements.before_odes + CompartmentalSystem(cb) + model.statements.after_odes
